@@ -750,7 +750,28 @@ const apiScript = `calls = calls + 1; a = hf(calls); b = other(); seenv = v; ret
 // the same without a final return: the run ends by falling off the end
 const apiScriptNoReturn = `calls = calls + 1; a = hf(calls); b = other(); seenv = v;`
 
+// runApiCase runs the steps under a watchdog: an API call that never comes
+// back (a lock left locked on an error path, say) is a violation, not a reason
+// to wait.
 func runApiCase(c *ApiCase) error {
+	done := make(chan error, 1)
+	go func() {
+		defer func() {
+			if p := recover(); p != nil {
+				done <- fmt.Errorf("panic: %v", p)
+			}
+		}()
+		done <- runApiSteps(c)
+	}()
+	select {
+	case err := <-done:
+		return err
+	case <-time.After(120 * time.Second):
+		return fmt.Errorf("the API calls of this history had not returned after 120 s: a call is blocked")
+	}
+}
+
+func runApiSteps(c *ApiCase) error {
 	r := eng.NewRunner(c.Script)
 	// model of the host-side bindings
 	fnVal := map[string]lang.Value{}
